@@ -448,3 +448,29 @@ Proof.
   assert (Hl : (match n with Leaf _ _ _ => [(p, n)] | Comp _ _ _ _ => nodes_with_paths p n true end) = nwp p n) by (destruct n; reflexivity).
   rewrite Hl in H. rewrite forallb_forall in H. specialize (H _ Hin). cbn [fst snd path_in existsb] in H. now rewrite Bool.orb_false_r in H.
 Qed.
+
+(* ---------- an empty, non-deleting mapping is neutral for the content of ANY mapping (C15, general merge) ---------- *)
+Lemma finish_dict_erase fs xs ch2 fo xo cho r pr :
+  (if has_priority_over (Comp CDict fo xo cho) (Comp CDict fs xs ch2) true
+   then replace_self (Comp CDict fs xs ch2) (Comp CDict fo xo cho) true
+   else replace_other (Comp CDict fs xs ch2) (Comp CDict fo xo cho) true) = (r, pr) ->
+  erase r = erase (Comp CDict fs xs ch2).
+Proof.
+  intro H. destruct (has_priority_over (Comp CDict fo xo cho) (Comp CDict fs xs ch2) true).
+  - unfold replace_self in H. cbn [with_flags nflags maybe_promote ckind_eqb fst snd] in H. unfold propagate in H. cbn [nflags] in H.
+    rewrite prop_as_comp in H. destruct (prop_stops (become fs fo)); inversion H; subst; rewrite !erase_comp; cbn [is_listk]; [reflexivity|].
+    f_equal. rewrite map_map. apply map_ext. intros [k c]. cbn [fst snd]. f_equal. symmetry. apply Sim_erase. unfold prop_child.
+    assert (Hg : same_explicit (nflags c) (fst (pc_flags (become fs fo) (if Facts.default_delete CDict then Some true else f_idel (become fs fo)) (nflags c)))).
+    { unfold pc_flags. cbv zeta. cbn [fst]. se_solve. }
+    destruct (snd (pc_flags _ _ _)); [apply prop_as_sim; exact Hg|apply Sim_with_flags; exact Hg].
+  - unfold replace_other in H. cbn [with_flags nflags maybe_promote ckind_eqb fst snd] in H. inversion H; subst. now rewrite !erase_comp.
+Qed.
+
+Theorem empty_mapping_neutral als fuel p fs xs chs fo xo :
+  delete (Comp CDict fo xo []) = false ->
+  exists r w, on_merge als (S fuel) p (Comp CDict fs xs chs) (Comp CDict fo xo []) = Ok (r, w) /\ erase r = erase (Comp CDict fs xs chs).
+Proof.
+  intro Hd. cbn [on_merge dispatch is_funck is_listk]. unfold comp_merge, prune. rewrite Hd. cbn [fold_left bind].
+  destruct (if has_priority_over (Comp CDict fo xo []) (Comp CDict fs xs chs) true then _ else _) as [r0 pr] eqn:Efin.
+  do 2 eexists. split; [reflexivity|]. exact (finish_dict_erase _ _ _ _ _ _ _ _ Efin).
+Qed.
